@@ -164,6 +164,8 @@ def run_property(pid, tier):
         if cfg.get("fallback_witness") in P.WITNESS:
             wunits.append(cfg["fallback_witness"])
     wunits += [u for u in sorted(undecided_units) if u in P.WITNESS and u not in wunits]
+    # searches registered with "always": they check a clause no contract states (e.g. byte content behind a third-party encoder)
+    wunits += [u for u in cfg.get("verus", []) if P.WITNESS.get(u, {}).get("always") and u not in wunits]
     if wunits:
         for u in wunits:
             w = P.WITNESS[u]
@@ -172,17 +174,23 @@ def run_property(pid, tier):
             except Exception as e:
                 wits, wlog, ok, stats, cmd = [], repr(e), False, {}, ""
             native_search.append({"unit": u, "ran": ok, "evaluations": stats.get("evaluations"), "witnesses": len(wits),
-                                  "reason": "stand-in for an undecided unit" if u in undecided_units else "thorough tier"})
+                                  "reason": "stand-in for an undecided unit" if u in undecided_units else ("registered for every tier" if P.WITNESS[u].get("always") else "thorough tier")})
             if not ok:
                 undecided.append("native search of unit %s did not run: %s" % (u, wlog[-300:].replace("\n", " | ")))
-            already = {f["fn"] for f in failed}
+            already = {f["fn"] for f in failed if f.get("kind") != "native-witness"}   # functions the verifier already reported
+            seen_ids = {f["id"] for f in failed}
             for x in wits:
                 if x.get("fn") in already:
                     continue
                 # the real code misbehaves on an input although every contract was discharged: report it (replayed natively by construction)
-                failed.append({"id": "native-search.%s.%s" % (u, x.get("fn")), "fn": x.get("fn"), "kind": "native-witness", "status": "failed", "backend": "native-search",
+                # identity of a native finding: unit, function and the clause it contradicts (the witness' `obl`, else a slug of its `expected` text)
+                clause = x.get("obl") or re.sub(r"[^a-z0-9]+", "_", str(x.get("expected", "")).lower()).strip("_")[:70]
+                nid = "native-search.%s.%s:%s" % (u, x.get("fn"), clause)
+                if nid in seen_ids:
+                    continue          # one report per (function, clause); the first witness is the replay
+                seen_ids.add(nid)
+                failed.append({"id": nid, "fn": x.get("fn"), "kind": "native-witness", "status": "failed", "backend": "native-search",
                                "where": w["target"], "message": "%s (expected: %s)" % (x.get("observed"), x.get("expected")), "unit": u, "verifier_output": json.dumps(x), "native_witness": x})
-                already.add(x.get("fn"))
     # ---------------------------------------------------------------- triage of failures
     violations, known_hits = [], []
     for f in failed:
